@@ -10,7 +10,7 @@ use sst::log::{ConcurrentLogBuilder, LogOptions};
 use sst::merging_cursor::MergingCursor;
 use sst::pruning_cursor::PruningCursor;
 use sst::{Builder, Cursor, KeyValuePair, KeyValueRef, SstBuilder, check_key_len, check_value_len};
-use sync42::wait_list::WaitList;
+use sync42::wait_list::{WaitGuard, WaitList};
 
 mod memtable;
 
@@ -373,10 +373,16 @@ impl KeyValueStore {
         };
         let mut log_batch = sst::log::WriteBatch::default();
         for entry in batch.entries.iter() {
-            log_batch.insert(KeyValueRef::from(entry))?;
+            if let Err(err) = log_batch.insert(KeyValueRef::from(entry)) {
+                return self.abandon_write(wait_guard, err);
+            }
         }
-        self.poison(log.append(log_batch))?;
-        self.poison(memtable.write(&mut batch))?;
+        if let Err(err) = self.poison(log.append(log_batch)) {
+            return self.abandon_write(wait_guard, err);
+        }
+        if let Err(err) = self.poison(memtable.write(&mut batch)) {
+            return self.abandon_write(wait_guard, err);
+        }
         drop(memtable);
         drop(log);
         let mut state = self.state.lock().unwrap();
@@ -388,6 +394,17 @@ impl KeyValueStore {
         drop(wait_guard);
         self.wait_list.notify_head();
         Ok(())
+    }
+
+    // A failed write leaves the wait list and passes the head position on:  a writer queued behind
+    // it sleeps until it is notified, and only a departing writer notifies.
+    fn abandon_write(&self, wait_guard: WaitGuard<'_, ()>, err: SError) -> Result<(), SError> {
+        // Under the state lock, as on the success path:  the writer behind checks is_head() and
+        // goes to sleep under that lock, so the wake-up cannot slip in between the two.
+        let _state = self.state.lock().unwrap();
+        drop(wait_guard);
+        self.wait_list.notify_head();
+        Err(err)
     }
 
     pub fn load(&self, key: &[u8], is_tombstone: &mut bool) -> Result<Option<Vec<u8>>, SError> {
